@@ -148,12 +148,12 @@ MUTANTS += [
     # ---- C04 ----
     ("c04-plus-logabsdet", ["C04"], [(FB, "        return samples, log_prob - logabsdet", "        return samples, log_prob + logabsdet")], "SLP-ASSEMBLE"),
     ("c04-forward-in-sampling", ["C04"], [(FB, "        samples, logabsdet = self._transform.inverse(noise, context=embedded_context)", "        samples, logabsdet = self._transform(noise, context=embedded_context)")], "SLP-ASSEMBLE"),
-    ("c04-context-tiled", ["C04", "C18"], [(FB, "            embedded_context = torchutils.repeat_rows(\n                embedded_context, num_reps=num_samples\n            )\n\n        samples, logabsdet", "            embedded_context = embedded_context.repeat(num_samples, *([1] * (embedded_context.dim() - 1)))\n\n        samples, logabsdet")], "CTX-PAIR"),
-    ("c04-split-swapped", ["C04", "C18"], [(FB, "            samples = torchutils.split_leading_dim(samples, shape=[-1, num_samples])\n\n        return samples\n", "            samples = torchutils.split_leading_dim(samples, shape=[num_samples, -1])\n\n        return samples\n")], "CTX-PAIR"),
+    ("c04-context-tiled", ["C04", "C18"], [(FB, "            embedded_context = torchutils.repeat_rows(\n                embedded_context, num_reps=num_samples\n            )\n\n        samples, logabsdet", "            embedded_context = embedded_context.repeat(num_samples, *([1] * (embedded_context.dim() - 1)))\n\n        samples, logabsdet")], "LEAD-LAYOUT"),
+    ("c04-split-swapped", ["C04", "C18"], [(FB, "            samples = torchutils.split_leading_dim(samples, shape=[-1, num_samples])\n\n        return samples\n", "            samples = torchutils.split_leading_dim(samples, shape=[num_samples, -1])\n\n        return samples\n")], "LEAD-LAYOUT"),
     ("c04-noise-not-from-base", ["C04"], [(FB, "            noise = self._distribution.sample(num_samples, context=embedded_context)", "            noise = torch.randn(embedded_context.shape[0], num_samples, 2)")], "NOISE-SRC"),
     ("c04-fresh-noise-for-logprob", ["C04"], [(FB, "        samples, logabsdet = self._transform.inverse(noise, context=embedded_context)\n\n        if embedded_context is not None:\n            # Split the context dimension from sample dimension.\n            samples = torchutils.split_leading_dim(samples, shape=[-1, num_samples])\n            logabsdet", "        samples, logabsdet = self._transform.inverse(torch.randn_like(noise), context=embedded_context)\n\n        if embedded_context is not None:\n            # Split the context dimension from sample dimension.\n            samples = torchutils.split_leading_dim(samples, shape=[-1, num_samples])\n            logabsdet")], "SLP-ASSEMBLE"),
-    ("c04-cdn-means-tiled", ["C04"], [(DN, "        means = torchutils.repeat_rows(means, num_samples)", "        means = means.repeat(num_samples, 1)")], "CTX-PAIR"),
-    ("c04-dist-slp-split", ["C04", "C18"], [(DB, "            log_prob = torchutils.split_leading_dim(log_prob, shape=[-1, num_samples])", "            log_prob = torchutils.split_leading_dim(log_prob, shape=[num_samples, -1])")], "CTX-PAIR"),
+    ("c04-cdn-means-tiled", ["C04"], [(DN, "        means = torchutils.repeat_rows(means, num_samples)", "        means = means.repeat(num_samples, 1)")], "LEAD-LAYOUT"),
+    ("c04-dist-slp-split", ["C04", "C18"], [(DB, "            log_prob = torchutils.split_leading_dim(log_prob, shape=[-1, num_samples])", "            log_prob = torchutils.split_leading_dim(log_prob, shape=[num_samples, -1])")], "LEAD-LAYOUT"),
     # ---- C18 ----
     ("c18-cat-dim0", ["C18"], [(DB, "return torch.cat(samples, dim=0 if context is None else 1)", "return torch.cat(samples, dim=0)")], "BATCH-CAT"),
     ("c18-cat-dim-swapped", ["C18"], [(DB, "return torch.cat(samples, dim=0 if context is None else 1)", "return torch.cat(samples, dim=1 if context is None else 0)")], "BATCH-CAT"),
@@ -366,6 +366,13 @@ MUTANTS += [
     ("c11o-inverse-same-order", ["C11"], [(ORT, "        return self._apply_transforms(inputs, self.q_vectors[reverse_idx])", "        return self._apply_transforms(inputs, self.q_vectors)")], "ORTH-REV"),
 ]
 
+MUTANTS += [
+    ("c05-cdn-noise-sample-major", ["C05", "C04"], [("nflows/distributions/normal.py", "        means = torchutils.repeat_rows(means, num_samples)\n        stds = torchutils.repeat_rows(stds, num_samples)\n", ""), ("nflows/distributions/normal.py", "        noise = torch.randn(context_size * num_samples, *\n                            self._shape, device=means.device)\n        samples = means + stds * noise", "        noise = torch.randn(num_samples, context_size, *self._shape, device=means.device)\n        samples = torchutils.merge_leading_dims(means + stds * noise, num_dims=2)")], "LEAD-LAYOUT"),
+    ("c05-cdn-rows-on-sample-axis", ["C05"], [("nflows/distributions/normal.py", "        means = torchutils.repeat_rows(means, num_samples)\n        stds = torchutils.repeat_rows(stds, num_samples)\n", ""), ("nflows/distributions/normal.py", "        noise = torch.randn(context_size * num_samples, *\n                            self._shape, device=means.device)\n        samples = means + stds * noise\n        return torchutils.split_leading_dim(samples, [context_size, num_samples])", "        noise = torch.randn(context_size, num_samples, *self._shape, device=means.device)\n        return means + stds * noise")], "LEAD-LAYOUT"),
+    ("c20-mid-round", ["C20"], [(TU, "    midpoint = features // 2 if features % 2 == 0 else features // 2 + 1", "    midpoint = round(features / 2)")], "UT-MASK"),
+    ("c08-ms-output-round", ["C08"], [(TB, "            output_shape[self._split_dim - 1] = (\n                output_shape[self._split_dim - 1] + 1\n            ) // 2", "            output_shape[self._split_dim - 1] = round(output_shape[self._split_dim - 1] / 2)")], "MS-SPLIT"),
+]
+
 # ---- C11 LIN-WORD / LIN-LOGDET on the matrix-word algebra ----
 MUTANTS += [
     ("c11w-lu-weight-order", ["C11"], [(LU, "        return lower @ upper", "        return upper @ lower")], "LIN-WORD"),
@@ -413,6 +420,10 @@ MUTANTS += [
 ]
 
 BENIGN = [
+    ("b-c05-cdn-broadcast-pair", ["C05", "C04", "C18", "C19"], [("nflows/distributions/normal.py", "        means = torchutils.repeat_rows(means, num_samples)\n        stds = torchutils.repeat_rows(stds, num_samples)\n", ""), ("nflows/distributions/normal.py", "        noise = torch.randn(context_size * num_samples, *\n                            self._shape, device=means.device)\n        samples = means + stds * noise\n        return torchutils.split_leading_dim(samples, [context_size, num_samples])", "        noise = torch.randn(context_size, num_samples, *self._shape, device=means.device)\n        return means[:, None] + stds[:, None] * noise")]),
+    ("b-c20-mid-np-ceil", ["C20"], [(TU, "    midpoint = features // 2 if features % 2 == 0 else features // 2 + 1", "    midpoint = int(np.ceil(features / 2))")]),
+    ("b-c20-mid-shift", ["C20"], [(TU, "    midpoint = features // 2 if features % 2 == 0 else features // 2 + 1", "    midpoint = (features + 1) >> 1")]),
+    ("b-c08-ms-hidden-shift", ["C08"], [(TB, "            hidden_shape[self._split_dim - 1] = hidden_shape[self._split_dim - 1] // 2", "            hidden_shape[self._split_dim - 1] = hidden_shape[self._split_dim - 1] >> 1")]),
     ("b-c11o-outer-matmul", ["C11", "C13", "C16"], [(ORT, "            temp = outputs @ q_vector  # Inner product.\n            temp = torch.ger(temp, (2.0 / squared_norm) * q_vector)  # Outer product.", "            temp = torch.matmul(outputs, q_vector)\n            temp = torch.outer(temp, (2.0 / squared_norm) * q_vector)")]),
     ("b-c11o-coefficient-on-projection", ["C11"], [(ORT, "            temp = torch.ger(temp, (2.0 / squared_norm) * q_vector)  # Outer product.", "            temp = torch.ger(2.0 * temp / squared_norm, q_vector)  # Outer product.")]),
     ("b-c11o-coefficient-outside", ["C11"], [(ORT, "            temp = torch.ger(temp, (2.0 / squared_norm) * q_vector)  # Outer product.", "            temp = 2.0 * torch.ger(temp, q_vector) / squared_norm")]),
